@@ -34,6 +34,11 @@
 ; r is (IEEE-equal to) one of the one-decimal floats lo/10 .. hi/10
 (define-fun isTenthOf ((r F64) (k Int)) Bool (fp.eq r (tenth k)))
 
+; the integer number of tenths denoted by a float (nearest integer to 10*r)
+(define-fun kof ((r F64)) Int (to_int (+ (* (fp.to_real r) 10.0) 0.5)))
+; r is a finite float64 that is IEEE-equal to the float nearest to k/10 for an integer lo <= k <= hi
+(define-fun isTenthIn ((r F64) (lo Int) (hi Int)) Bool
+  (and (not (fp.isNaN r)) (not (fp.isInfinite r)) (fp.eq r (tenth (kof r))) (<= lo (kof r)) (<= (kof r) hi)))
 ; real-number helpers
 (define-fun rmin ((a Real) (b Real)) Real (ite (<= a b) a b))
 (define-fun rabs ((a Real)) Real (ite (< a 0.0) (- a) a))
@@ -87,3 +92,6 @@
 (define-fun elemkey ((el Str)) Str (substr el 0 (firstbyte el #x3a)))
 (define-fun elemval ((el Str)) Str
   (ite (< (firstbyte el #x3a) (s.len el)) (substr el (+ (firstbyte el #x3a) 1) (s.len el)) emptystr))
+
+; integer-valued float: the float64 of a (small) mathematical integer (exact)
+(define-fun i2f ((n Int)) F64 ((_ to_fp 11 53) RNE (to_real n)))
